@@ -235,3 +235,84 @@ Theorem interrupted_is_not_an_error s :
   select_step s (Poll (KErr EINTR)) = (s, OReady [] []) /\
   select_step s (Poll (KErr EBADF)) = (mkP (reg s) [] [], OReady [] []).
 Proof. repeat split. Qed.
+
+(* ---------------------------------------------------------------------------------------------
+   KQueuePoller *)
+Arguments pmem : simpl never.
+Arguments padd : simpl never.
+Arguments pdel : simpl never.
+
+Lemma pair_eqb_eq a b : pair_eqb a b = true <-> a = b.
+Proof.
+  destruct a as [a1 a2], b as [b1 b2]. unfold pair_eqb. cbn [fst snd]. rewrite andb_true_iff, !Z.eqb_eq.
+  split; [intros [-> ->]; reflexivity | intros H; inversion H; auto].
+Qed.
+Lemma pair_eqb_refl a : pair_eqb a a = true.
+Proof. apply pair_eqb_eq. reflexivity. Qed.
+
+Lemma pmem_padd x y l : pmem x (padd y l) = pair_eqb x y || pmem x l.
+Proof.
+  unfold padd. destruct (pmem y l) eqn:E; [|reflexivity].
+  destruct (pair_eqb x y) eqn:Exy; [|reflexivity]. apply pair_eqb_eq in Exy. subst. rewrite E. reflexivity.
+Qed.
+
+Theorem kq_interrupted_is_not_an_error s : kq_step s (KPoll (KErr EINTR)) = (s, OReady [] []).
+Proof. reflexivity. Qed.
+
+(* the Python sets follow the request whatever the kernel answers; EBADF from the kernel is tolerated (logged),
+   any other errno is re-raised and the kernel registry is left as it was *)
+Theorem kq_register_sets s fd e :
+  rs (fst (kq_step s (KRegR fd e))) = add fd (rs s) /\ ws (fst (kq_step s (KRegW fd e))) = add fd (ws s) /\
+  rs (fst (kq_step s (KUnregR fd e))) = del fd (rs s) /\ ws (fst (kq_step s (KUnregW fd e))) = del fd (ws s).
+Proof.
+  cbn [kq_step]. repeat split.
+  all: match goal with |- context [kq_control ?a ?b ?c ?d ?g] => destruct (kq_control a b c d g) end; reflexivity.
+Qed.
+
+Theorem kq_ebadf_tolerated s fd :
+  kq_step s (KRegR fd EBADF) = (mkP (reg s) (add fd (rs s)) (ws s), ODone) /\
+  kq_step s (KUnregR fd EBADF) = (mkP (reg s) (del fd (rs s)) (ws s), ODone).
+Proof. split; reflexivity. Qed.
+
+Theorem kq_other_errno_raised s fd e :
+  e <> 0 -> e <> EBADF ->
+  snd (kq_step s (KRegR fd e)) = ORaise e /\ reg (fst (kq_step s (KRegR fd e))) = reg s.
+Proof.
+  intros H0 H9. cbn [kq_step]. unfold kq_control.
+  destruct (e =? 0) eqn:E0; [apply Z.eqb_eq in E0; contradiction|].
+  destruct (e =? EBADF) eqn:E9; [apply Z.eqb_eq in E9; contradiction|]. split; reflexivity.
+Qed.
+
+(* every descriptor poll() returns was reported by the kernel with the matching filter *)
+Theorem kq_poll_sound s l s' r w :
+  kq_step s (KPoll (KEvents l)) = (s', OReady r w) ->
+  s' = s /\ (forall fd, In fd r -> In (fd, KQ_READ) l) /\ (forall fd, In fd w -> In (fd, KQ_WRITE) l).
+Proof.
+  cbn [kq_step]. intros H. inversion H; subst. split; [reflexivity|]. split; intros fd Hin.
+  all: apply in_map_iff in Hin; destruct Hin as ([f m] & Ef & Hin); cbn in Ef; subst f.
+  all: apply filter_In in Hin; destruct Hin as [Hin Hm]; cbn in Hm; apply Z.eqb_eq in Hm; subst m; exact Hin.
+Qed.
+
+(* after daemonizing (the kqueue does not survive the fork) every descriptor of the two sets is registered
+   again, with its own filter, and nothing else is *)
+Lemma fold_padd_mem (flt : Z) (l : list Z) (g : list (Z * Z)) x :
+  pmem x (fold_right (fun fd g => padd (fd, flt) g) g l) = (mem (fst x) l && (snd x =? flt)) || pmem x g.
+Proof.
+  induction l as [|y l IH]; cbn [fold_right]; [reflexivity|].
+  rewrite pmem_padd, IH. destruct x as [x1 x2]. unfold pair_eqb, mem. cbn [fst snd]. fold (mem x1 l).
+  destruct (x1 =? y), (x2 =? flt), (mem x1 l), (pmem (x1, x2) g); reflexivity.
+Qed.
+
+Theorem kq_daemonize_registers_all s fd flt :
+  pmem (fd, flt) (reg (fst (kq_step s KDaemonize))) =
+  (mem fd (rs s) && (flt =? KQ_READ)) || (mem fd (ws s) && (flt =? KQ_WRITE)).
+Proof.
+  cbn [kq_step fst reg]. rewrite !fold_padd_mem. cbn [fst snd]. unfold pmem. rewrite orb_false_r. apply orb_comm.
+Qed.
+
+Theorem kq_all s :
+  kq_step s (KPoll (KErr EINTR)) = (s, OReady [] []) /\
+  (forall fd, kq_step s (KRegR fd EBADF) = (mkP (reg s) (add fd (rs s)) (ws s), ODone)) /\
+  (forall fd flt, pmem (fd, flt) (reg (fst (kq_step s KDaemonize))) =
+                  (mem fd (rs s) && (flt =? KQ_READ)) || (mem fd (ws s) && (flt =? KQ_WRITE))).
+Proof. split; [reflexivity | split; [intros; reflexivity | intros; apply kq_daemonize_registers_all]]. Qed.
